@@ -460,7 +460,7 @@ pub fn map_children(g: &G, f: &mut dyn FnMut(&G) -> G) -> G {
         }
     }
     match g {
-        Just(_) | JustSeq(..) | Any | OneOf(_) | NoneOf(_) | Select(_) | End | Empty | Custom(..) | EmptyChoice | JustCtx | RecRef(_) | AnyRef | SelectRef(_) => g.clone(),
+        Just(_) | JustSeq(..) | Any | OneOf(_) | NoneOf(_) | Select(_) | End | Empty | Custom(..) | EmptyChoice | JustCtx | RecRef(_) | AnyRef | SelectRef(_) | Var => g.clone(),
         Map(a) => Map(bx(a)),
         To(a) => To(bx(a)),
         Ignored(a) => Ignored(bx(a)),
@@ -477,6 +477,7 @@ pub fn map_children(g: &G, f: &mut dyn FnMut(&G) -> G) -> G {
         Labelled(a, c) => Labelled(bx(a), *c),
         MapErr(a) => MapErr(bx(a)),
         Memo(a) => Memo(bx(a)),
+        Padded(a) => Padded(bx(a)),
         WithState(a) => WithState(bx(a)),
         Snd(a) => Snd(bx(a)),
         Fst(a) => Fst(bx(a)),
@@ -512,6 +513,10 @@ pub fn map_children(g: &G, f: &mut dyn FnMut(&G) -> G) -> G {
         Then(a, c) => {
             let a = bx(a);
             Then(a, bx(c))
+        }
+        Let(a, c) => {
+            let a = bx(a);
+            Let(a, bx(c))
         }
         IgnoreThen(a, c) => {
             let a = bx(a);
@@ -668,6 +673,50 @@ pub fn k_state() -> Class {
     c.leaves.push(Custom(11, true));
     c.unary.push(u1(|a| Some(WithState(a))));
     c
+}
+
+/// padding class (C18, C05): `.padded()` is the one user of `InputRef::skip_while`, a third way of advancing the
+/// cursor (besides next() and skip()); over an alphabet with a space
+pub fn k_padded() -> Class {
+    let leaves = vec![Just('a'), Any, Select("a "), JustSeq('a', ' '), End];
+    let unary = vec![u1(|a| Some(Padded(a))), u1(|a| Some(OrNot(a))), u1(|a| Some(Rewind(a))), u1(|a| Some(Validate(a, 1))), u1(|a| if nn(&a) { Some(Rep(a, Bounds::STAR, Sink::Vec)) } else { None })];
+    let binary = vec![u2(|a, c| Some(Then(a, c))), u2(|a, c| Some(Or(a, c))), u2(|a, c| Some(AndIs(a, c))), u2(|a, c| Some(Recover(a, c)))];
+    Class { name: "Kpadded", leaves, unary, binary, ternary: vec![] }
+}
+
+/// sharing class (C11): bodies that use ONE parser value (`var`) several times - at the same position after
+/// backtracking, under map_err, inside a recovery strategy - so that a memoized definition is really looked up
+/// in its table (two separate memoized() nodes never share an entry).  `defs` x bodies with >= 2 uses.
+pub fn k_share_bodies() -> Class {
+    let leaves = vec![Var, Just('a'), JustSeq('a', 'a')];
+    let unary = vec![u1(|a| Some(MapErr(a))), u1(|a| Some(OrNot(a)))];
+    let binary = vec![u2(|a, c| Some(Then(a, c))), u2(|a, c| Some(Or(a, c))), u2(|a, c| Some(Recover(a, c)))];
+    Class { name: "Kshare", leaves, unary, binary, ternary: vec![] }
+}
+pub fn k_share_defs() -> Vec<G> {
+    vec![JustSeq('a', 'b'), Then(b(Just('a')), b(OrNot(b(Just('b'))))), Or(b(JustSeq('a', 'b')), b(Just('b'))), TryMap(b(Any)), Validate(b(Just('a')), 1)]
+}
+/// (plain, memoized-definition) pairs
+pub fn k_share_pairs(n: usize) -> Vec<G> {
+    let mut out = vec![];
+    for body in k_share_bodies().upto(n) {
+        let mut uses = 0;
+        let mut stack = vec![&body];
+        while let Some(g) = stack.pop() {
+            if matches!(g, Var) {
+                uses += 1;
+            }
+            stack.extend(g.children());
+        }
+        if uses < 2 {
+            continue;
+        }
+        for d in k_share_defs() {
+            out.push(Let(b(d.clone()), b(body.clone())));
+            out.push(Let(b(Memo(b(d))), b(body.clone())));
+        }
+    }
+    out
 }
 
 /// recovery class over a bracket alphabet (nested_delimiters)
